@@ -186,6 +186,17 @@ def run(ctx):
             continue        # reported under C14 (K4)
         ctx.check(k is not None, "C01-LOOP", "%s#loop@%s" % (b["id"], _loop_ord(R, b, head)), txt, b["blocks"][head]["term"].get("span", b["span"]), detail="%s: %s" % (k, txt))
     ctx.floor("C01-LOOP", len(loops), 70, "natural loops in the read universe")
+    ctx.rule("C01-G7", "a loop of the shape `while cursor + X < len` whose body relies on that condition alone advances the cursor by no more per iteration "
+             "than the condition guarantees to be left (X, plus one if the comparison is strict)")
+    from termination import consumption_check
+    n7 = 0
+    for b, head, k, txt in loops:
+        cfg = R.taint.cfg(b)
+        rec7, ok7, t7 = consumption_check(f, b, cfg, head, cfg.loops()[head], R.taint)
+        if rec7:
+            n7 += 1
+            ctx.check(ok7, "C01-G7", "%s#loop@%s" % (b["id"], _loop_ord(R, b, head)), t7, b["blocks"][head]["term"].get("span", b["span"]), detail=t7)
+    ctx.floor("C01-G7", n7, 1, "cursor loops guarded by their condition alone (the predictor row loop of flate_decode)")
     ctx.note("loop witnesses: " + ", ".join("%s=%d" % (k, v) for k, v in sorted(kinds.items(), key=lambda x: str(x[0]))))
     # G1 parser budget, G3 /Prev seen-set
     ctx.rule("C01-G1", "the recursive descent of the object parser is cut by a budget that is tested against zero and passed on decremented")
